@@ -121,6 +121,11 @@ func Render(s string) (ui.Text, error) {
 			if w == 0 {
 				return nil, fmt.Errorf("line %d: zero-width character is not allowed", i+1)
 			}
+			if len(style) < w {
+				return nil, fmt.Errorf(
+					"line %d: style line too short for multi-width character %q",
+					i+2, string(r))
+			}
 			if !same(style[:w]) {
 				return nil, fmt.Errorf(
 					"line %d: inconsistent style %q for multi-width character %q",
